@@ -91,6 +91,18 @@ REMEDY = {
     "C17-r5-2": "new C17 tracking stream with calm records",
     "C18-r5-1": "C18 reconstruction in histories and as observed operation",
     "C18-r5-2": "Dataset accessor adds arguments of its own: decided by C06 on reader-like datasets (wind/depth variables present)",
+    "C06-r6-1": "C06 smooths stacks with an all-missing first record and holes in another",
+    "C06-r6-2": "new C06 stream: ptm1_track partitions must equal ptm1, also across gaps in the wind record",
+    "C07-r6-1": "new C07 selection stream on datasets whose variables are chunked differently",
+    "C07-r6-2": "flat-topped peaks: decided by C02 (designed flat tops, strict-peak rule) on in-memory data",
+    "C09-r6-1": "limits written back into the caller's box dictionaries: decided by C17",
+    "C11-r6-1": "C11 default clip=True on spectra lying inside the retained half plane",
+    "C12-r6-1": "C12 dask-backed native datasets",
+    "C12-r6-2": "C12 near-geometric frequency grids (rounded / drifting ratio)",
+    "C13-r6-1": "C13 WW3-station output steps that are not whole minutes",
+    "C13-r6-2": "gridded SWAN files are C11's subject (write/read of lat x lon grids): decided by C11",
+    "C18-r6-1": "C18 history: stats() with limits failing on an unknown statistic",
+    "C18-r6-2": "new C18 probe: a Partition object reused after a rule-based split",
 }
 rows = []
 for m in sorted(glob.glob(os.path.join(ROOT, "seeded", "*", "meta.json"))):
